@@ -16,7 +16,7 @@ class Executor:
         """
         self._cells_have_been_changed: bool = False
         self._executed_instance: Optional[AbstractExcelInPython] = None
-        self._cells: Set[Cell] = set()
+        self._cells: Dict[str, Cell] = {}
         self._titles: Dict[str, int] = {}
         self._sheets_size: List[Dict[str, int]] = []
 
@@ -71,7 +71,8 @@ class Executor:
             self._sheets_size[sheet]['last_row'] = max(row, self._sheets_size[sheet]['last_row'])
             self._sheets_size[sheet]['last_column'] = max(column, self._sheets_size[sheet]['last_column'])
 
-        self._cells = {*cells, *self._cells}
+        # one entry per cell, the most recent write replaces the earlier ones
+        self._cells = {**self._cells, **{cell.uid: cell for cell in cells}}
         self._cells_have_been_changed = True
         return self
 
@@ -82,7 +83,7 @@ class Executor:
         Returns:
             Executor.
         """
-        self._executed_instance.set_arguments([cell.to_dict() for cell in self._cells])
+        self._executed_instance.set_arguments([cell.to_dict() for cell in self._cells.values()])
         self._cells_have_been_changed = False
         return self
 
